@@ -461,13 +461,26 @@ func runC03(c *Ctx, r *Report) {
 		fmt.Sprintf("the linearisation does not read the log's current state (heads=%v, Entries lookup=%v)", usesHeads, usesEntries))
 }
 
-// entryVarIn: the entry-typed variable an expression like e.GetHash().String() is about.
+// entryVarIn: the entry-typed variable an expression like e.GetHash().String() is about. A local assigned
+// exactly once (`hash := e.GetHash().String()`) stands for its defining expression.
 func entryVarIn(p *Prog, fn *Fn, e ast.Expr) *types.Var {
+	return entryVarInDepth(p, fn, e, 0)
+}
+
+func entryVarInDepth(p *Prog, fn *Fn, e ast.Expr, depth int) *types.Var {
 	var out *types.Var
 	ast.Inspect(e, func(n ast.Node) bool {
 		if id, ok := n.(*ast.Ident); ok {
-			if v, ok := p.ObjOf(fn, id).(*types.Var); ok && isNamed(v.Type(), p.pkgPath("iface"), "IPFSLogEntry") {
-				out = v
+			if v, ok := p.ObjOf(fn, id).(*types.Var); ok {
+				if isNamed(v.Type(), p.pkgPath("iface"), "IPFSLogEntry") {
+					out = v
+				} else if depth < 3 && !v.IsField() {
+					if def := p.SoleDef(fn, v); def != nil {
+						if w := entryVarInDepth(p, fn, def, depth+1); w != nil {
+							out = w
+						}
+					}
+				}
 			}
 		}
 		return true
